@@ -232,6 +232,13 @@ func (s String) Without(value Value) Set {
 	if s.Count() == 0 {
 		return None
 	}
+	// Trim holes exposed at either end, so that the result stays canonical.
+	for len(s.s) > 0 && s.s[0] < 0 {
+		s = String{s: s.s[1:], offset: s.offset + 1, holes: s.holes - 1}
+	}
+	for len(s.s) > 0 && s.s[len(s.s)-1] < 0 {
+		s = String{s: s.s[:len(s.s)-1], offset: s.offset, holes: s.holes - 1}
+	}
 	return s
 }
 
